@@ -74,8 +74,8 @@ CHECKS.update({
    ref="6 C07", note=TB_E1),
 })
 CHECKS.update({
- "C08": dict(engine=E2, technique="exhaustive enumeration of (stored unit-cost string x request sub-type x boundary value) against the real rating server over real go-diameter state machines on the modelled network; answer presence decided at quiescence",
-   text="Every unit-cost string of the alphabet (integers incl. 0 and 2^32-1, decimals, malformed text) x 4 sub-types x boundary consumed/quota values is sent over a real Diameter connection to the server started by rf.OpenServer; price / allowed units must be exact, the tariff must decode at the CHF (getUnitCost arithmetic) to the unit cost applied, every request must be answered and another subscriber must still be served afterwards.",
+ "C08": dict(engine=E2, technique="exhaustive enumeration of (stored unit-cost string x request sub-type x boundary value) against the real rating server over real go-diameter state machines on the modelled network, answer presence decided at quiescence; plus stateless preemption-bounded schedule exploration of two / three peers with requests in flight on separate connections",
+   text="Every unit-cost string of the alphabet (integers incl. 0 and 2^32-1, decimals, malformed text) x 4 sub-types x boundary consumed/quota values is sent over a real Diameter connection to the server started by rf.OpenServer; price / allowed units must be exact, the tariff must decode at the CHF (getUnitCost arithmetic) to the unit cost applied, every request must be answered and another subscriber must still be served afterwards. Schedule part: every placement of up to k PARK deviations at network, database and dispatcher operations while two or three peers each have one request in flight; every peer must receive the answer to its own request (Session-Id, own tariff, exact price).",
    ref="6 C08", note=TB_E1),
 })
 CHECKS.update({
@@ -90,8 +90,8 @@ CHECKS.update({
 })
 CHECKS.update({
  "C09": dict(engine=E1, technique="stateless preemption-bounded schedule exploration (controlled goroutine scheduler) of 2-3 concurrent requests on the real implementation, serializability oracle against the implementation's own serial executions",
-   text="Eleven scenarios (creates for a new / known / different SUPI, updates on the same / different sessions and subscribers, update vs release, update vs recharge, partial-record closures, three-request mixes): after a sequential set-up the requests run in concurrent driver threads; every placement of up to k PARK deviations at shared-state operations is executed to completion, then every acknowledged session is updated and released. No execution may block forever, panic or kill the process, and the final observation must equal that of some serial order of the same requests (reference = the implementation run serially in every permutation).",
-   ref="6 C09", note=TB_E1 + "; unsynchronised plain-memory accesses between two gates are outside the cooperative scheduler's view (see DESIGN.md, race pass)"),
+   text="Fifteen scenarios (creates for a new / known / different / prefix-ambiguous SUPI and the same consumer, updates on the same / different sessions and subscribers, update vs release, update vs external credit + recharge notification, update vs notification alone, partial-record closures, three-request mixes): after a sequential set-up the requests run in concurrent driver threads; every placement of up to k PARK deviations at shared-state operations is executed to completion, then every acknowledged session is updated and released. No execution may block forever, panic or kill the process, and the final observation must equal that of some serial order of the same requests (reference = the implementation run serially in every permutation).",
+   ref="6 C09", note=TB_E1 + "; unsynchronised plain-memory accesses between two gates are outside the cooperative scheduler's view: the 'no data race' clause is decided by a separate free-running race-detector pass over the same scenario bodies (a detector run, not an exhaustive search; see DESIGN.md 3.7)"),
 })
 CHECKS.update({
  "C20": dict(engine=E2, technique="bounded-exhaustive enumeration of YAML configurations (single + pairwise, thorough: triple deviations from a valid baseline) through the real validation and the real start-up sequence, process deaths attributed per configuration",
